@@ -339,6 +339,29 @@ theorem finishStream_shift (P : Parsers V T) (sfx : Bytes) (k q : Nat) (info : V
   · rfl
   · cases P.streamEnd (sfx.drop (rel + n)) <;> simp [shiftOut, Obj.shift, Nat.add_assoc]
 
+theorem streamWithLen_shift (P : Parsers V T) (k : Nat) (r r' : Nat → Out (Obj V))
+    (hr : ∀ lid, r' lid = shiftOut k (r lid)) (sfx : Bytes) (q : Nat) (info : V) (rel : Nat) (ls : LenSpec) :
+    streamWithLen P r' sfx (k + q) info rel ls = shiftOut k (streamWithLen P r sfx q info rel ls) := by
+  cases ls with
+  | direct n => simp only [streamWithLen, finishStream_shift]
+  | indirect lid =>
+    simp only [streamWithLen, hr lid]
+    cases r lid with
+    | ok o2 =>
+      cases o2 with
+      | plain v =>
+        simp only [shiftOut, Obj.shift]
+        cases P.asLen v with
+        | ok n => simp only [finishStream_shift]; rfl
+        | err => rfl
+        | panic => rfl
+        | oof => rfl
+      | stream _ _ _ => simp [shiftOut, Obj.shift]
+    | err => rfl
+    | panic => rfl
+    | oof => rfl
+  | bad => rfl
+
 theorem directBody_append (P : Parsers V T) (p f : Bytes) (s : Nat) (hfit : Fits p f)
     (r r' : Nat → Out (Obj V)) (hr : ∀ lid, r' lid = shiftOut p.length (r lid)) (flags : Flags) (pos : Nat) :
     directBody P r' (p ++ f) (p.length + s) flags pos = shiftOut p.length (directBody P r f s flags pos) := by
@@ -352,26 +375,7 @@ theorem directBody_append (P : Parsers V T) (p f : Bytes) (s : Nat) (hfit : Fits
     | ok o =>
       cases o with
       | plain v => simp [shiftOut, Obj.shift]
-      | stream info rel ls =>
-        cases ls with
-        | direct n => simp only [finishStream_shift]
-        | indirect lid =>
-          simp only [hr lid]
-          cases r lid with
-          | ok o2 =>
-            cases o2 with
-            | plain v =>
-              simp only [shiftOut, Obj.shift]
-              cases P.asLen v with
-              | ok n => simp only [finishStream_shift]; rfl
-              | err => rfl
-              | panic => rfl
-              | oof => rfl
-            | stream _ _ _ => simp [shiftOut, Obj.shift]
-          | err => rfl
-          | panic => rfl
-          | oof => rfl
-        | bad => rfl
+      | stream info rel ls => exact streamWithLen_shift P p.length r r' hr sfx q info rel ls
     | err => rfl
     | panic => rfl
     | oof => rfl
